@@ -753,6 +753,11 @@ def run_shard(shard, tier):
     return res
 
 
+def post(tot, tier):
+    # shards finish in any order: make the recorded samples independent of it
+    tot["samples"] = sorted(tot["samples"])
+
+
 def replay(w):
     case = w["case"]
     tmp = tempfile.mkdtemp(prefix="verif-")
